@@ -307,6 +307,11 @@ def r09_3(ctx, m):
             sr = tagvar.get("SR", ("?",))[0]
             g_ok = any(pol and (f"{sr} == 0" in norm(t)) for t, pol in guards)
             ctx.check(val_ok and g_ok, "R09.3", pa.where(st), "sn is assigned only from the SN tag of a node whose SR (rank) is 0", key_of(pa, f"sn-assign:{norm(st)}:{[norm(t) for t, _ in guards]}"), guards=[(norm(t), pol) for t, pol in guards])
+            # ... and from every such node: nothing but the rank (and "not yet known") decides whether a node may name the
+            # contig; a guard on the node's BO / NO tags excludes the reference nodes inside bubbles
+            other = [norm(t) for t, pol in guards if any(v_ and v_ in {n_.id for n_ in ast.walk(t) if isinstance(n_, ast.Name)} for v_ in (tagvar.get("BO", (None,))[0], tagvar.get("NO", (None,))[0]))]
+            if other:
+                ctx.violated("R09.3", pa.where(st), f"whether a rank-0 node names the record's contig also depends on `{other[0][:60]}`: a record whose reference nodes all lie inside bubbles (NO != 0) gets sn 'unknown' and drops out of the per-contig index", key_of(pa, f"sn-guarded-by-bo-no:{other[0][:40]}"))
         elif const_value(st.value) == "unknown":
             guards = guards_of(pa.node, st)
             g_ok = any(pol and norm(t) == f"{sn_var} is None" for t, pol in guards)
